@@ -296,7 +296,14 @@ impl Monitor for C15 {
                 }
                 let fail = fail_rate > 0 && rng.below(10) < fail_rate;
                 let term = if fail { absent_near(&mut rng, &present) } else { *rng.pick(&present) };
-                let call_name = if fail && rng.chance(1, 2) { format!("{name} (other name)") } else { name.clone() };
+                // another spelling of the name: on failing calls, and now and then on a call for a record that
+                // exists already (the record keeps its first name; the call is an ordinary annotation)
+                let call_name = if (fail && rng.chance(1, 2)) || (!fail && existing.is_some() && rng.chance(1, 5)) {
+                    out_local.bucket("call/annotate_known_record_with_another_name");
+                    format!("{name} (other name)")
+                } else {
+                    name.clone()
+                };
                 bump(&mut out_local.events, "Builder::annotate");
                 let res = match k {
                     0 => b.annotate_gene(GeneId::from(rid), &call_name, HpoTermId::from_u32(term)),
